@@ -2,7 +2,22 @@ from ...utils import assert_is_instance
 from ..system import Environment, System
 
 
-class Asset:
+class _AssetMeta(type):
+    '''Registers a new Asset with the active System only after all of
+    its constructors have finished.
+
+    The System initializes a newly registered Asset immediately when
+    the simulation is already in progress, which requires a fully
+    constructed object.
+    '''
+
+    def __call__(cls, *args, **kwargs):
+        new_asset = super().__call__(*args, **kwargs)
+        new_asset._register_with_system()
+        return new_asset
+
+
+class Asset(metaclass = _AssetMeta):
     '''Base class to be used for all simulated assets in production.
 
     Arguments
@@ -33,7 +48,10 @@ class Asset:
         self._value = self._initial_value = value
         self._value_history = []
 
-        if is_transitory == False:
+        self._is_transitory = is_transitory
+
+    def _register_with_system(self):
+        if self._is_transitory == False:
             # Will trigger initialize(env) to be called if simulation is
             # already in progress.
             System.add_asset(self)
